@@ -264,3 +264,21 @@ def enum_variants(tyhead, hint_variant=None):
     # identical definitions in several files are fine
     c = cands[0]
     return c['variants'], c['discr']
+
+
+@functools.lru_cache(maxsize=None)
+def newtype_table():
+    """tuple structs with a single field:  struct Name(pub T);  ->  {Name: T}"""
+    out = {}
+    rx = re.compile(r'struct\s+([A-Za-z0-9_]+)\s*\(\s*(?:pub(?:\([a-z]+\))?\s+)?([A-Za-z0-9_:<>]+)\s*\)\s*;')
+    roots = [os.path.join(REPO, d) for d in ('actors', 'runtime')]
+    for r in roots:
+        for p in glob.glob(os.path.join(r, '**', '*.rs'), recursive=True):
+            if '/tests/' in p or '/target/' in p:
+                continue
+            ls = _lines(p)
+            if ls is None:
+                continue
+            for m in rx.finditer('\n'.join(ls)):
+                out[m.group(1)] = m.group(2)
+    return out
